@@ -336,6 +336,11 @@ def replay_valid(p):
         elif what == 'povm':
             Es = R.rand_povm(p['d'], p['nt'], seed=seed)
             bad = np.abs(Es.sum(axis=0) - np.eye(p['d'])).max() > 1e-8 or any(np.linalg.eigvalsh((E_ + E_.conj().T) / 2).min() < -1e-8 or np.abs(E_ - E_.conj().T).max() > 1e-8 for E_ in Es)
+        elif what == 'separable':
+            dA, dB = p['dA'], p['dB']
+            rho = R.rand_separable_dm(dA, dB, k=p['k'], pure_term=p['pure'], seed=seed)
+            pt = rho.reshape(dA, dB, dA, dB).transpose(0, 3, 2, 1).reshape(dA * dB, dA * dB)
+            bad = abs(np.trace(rho) - 1) > 1e-8 or np.linalg.eigvalsh((rho + rho.conj().T) / 2).min() < -1e-8 or np.linalg.eigvalsh((pt + pt.conj().T) / 2).min() < -1e-8
         elif what == 'choi':
             C = R.rand_choi_op(p['din'], p['dout'], p['rank'], seed=seed)
             din, dout = p['din'], p['dout']
@@ -770,6 +775,84 @@ def run(chk):
         tr = lambda Mx: np.array([[sum((S.as_sc(Mx[a * dout + b, c * dout + b]) for b in range(dout)), SC(ir.ZERO)) for c in range(din)] for a in range(din)], dtype=object)
         chk.add(f'lemma C4 [{din}x{dout}]: Tr_out[(T (x) I) X (T (x) I)] == T (Tr_out X) T (identity)', [], ir.band_all(eqm(tr(Yg), mmul(Tg, tr(Xg), Tg))), key='matrix lemma', replay=rp)
     choi_block(2, 2, 2)
+    # rand_separable_dm: the returned matrix IS sum_i p_i A_i (x) B_i with the local states the local generators returned (spied), p_i >= 0 summing to one
+    def separable_block(dA, dB, k, pure):
+        import numqi.random._internal as RI
+        chk.configurations += 1
+        calls = []
+        real_state, real_dm = RI.rand_haar_state, RI.rand_density_matrix
+
+        def spy_state(dim, *a_, **k_):
+            r = real_state(dim, *a_, **k_)
+            calls.append(('ket', dim, r))
+            return r
+
+        def spy_dm(dim, *a_, **k_):
+            r = real_dm(dim, *a_, **k_)
+            calls.append(('dm', dim, r))
+            return r
+        eg2 = {k_: dict(v_) for k_, v_ in eg.items()}
+        eg2.setdefault('numqi.random._internal', {}).update({'rand_haar_state': spy_state, 'rand_density_matrix': spy_dm})
+
+        udraws = []
+
+        def once():
+            _FRESH[0] = 0
+            TOTAL[0] = 0
+            del calls[:], udraws[:]
+            stm = SymStream(f'v<sep{dA}{dB}{k}{int(pure)}>')
+            orig_u = stm.uniform
+
+            def rec_u(*a_, **k_):
+                r = orig_u(*a_, **k_)
+                if not udraws:
+                    udraws.append(r.copy() if hasattr(r, 'copy') else r)      # the first uniform draw of the generator: the unnormalised weights
+                return r
+            stm.uniform = rec_u
+            return R.rand_separable_dm(dA, dB, k=k, pure_term=pure, seed=stm)
+        try:
+            paths, st = H.run_paths(once, [], np_facade=fac, extra_globals=eg2, feas_timeout_ms=1000, max_paths=8)
+        except S.EngineError as e:
+            chk.engine_error(f'rand_separable_dm({dA},{dB},{k},{pure})', e)
+            return
+        chk.add_path_stats(st)
+        rp = ('c10v', {'what': 'separable', 'dA': dA, 'dB': dB, 'k': k, 'pure': pure})
+        for pi, path in enumerate(paths):
+            if path.status != 'return':
+                chk.add(f'rand_separable_dm({dA},{dB},k={k},pure_term={pure}) raises {type(path.value).__name__}: {path.value}', path.pc + path.facts, ir.FALSE, key='rand_separable_dm raises', replay=rp)
+                continue
+            with path.resume():
+                rho = A.plain(path.value)
+                base = path.pc + path.facts + [c for k_, c in path.side]
+                want_kind = 'ket' if pure else 'dm'
+                ok = len(calls) == 2 * k and all(c_[0] == want_kind for c_ in calls) and all(calls[2 * i][1] == dA and calls[2 * i + 1][1] == dB for i in range(k)) and rho.shape == (dA * dB, dA * dB)
+                if not ok:
+                    chk.add(f'rand_separable_dm({dA},{dB},k={k},pure_term={pure}): built from k pairs of local states of dimensions dimA, dimB', base, ir.FALSE, key='rand_separable_dm not a mixture of product states', replay=rp)
+                    continue
+                loc = []
+                for kind_, dim_, r_ in calls:
+                    v_ = A.plain(r_) if isinstance(r_, A.SymArray) else np.asarray(r_, dtype=object)
+                    loc.append(np.outer(v_, np.array([S.as_sc(x).conjugate() for x in v_], dtype=object)) if kind_ == 'ket' else v_)
+                prods = [np.kron(loc[2 * i], loc[2 * i + 1]) for i in range(k)]
+                ok2 = len(udraws) == 1 and np.shape(udraws[0]) == (k,)
+                if not ok2:
+                    chk.add(f'rand_separable_dm({dA},{dB},k={k},pure_term={pure}): weights come from one uniform draw of size k', base, ir.FALSE, key='rand_separable_dm not a mixture of product states', replay=rp)
+                    continue
+                u = [S.as_sc(x) for x in A.plain(udraws[0])]
+                tot = _sumw(u)
+                w = [x / tot for x in u]
+                base = path.pc + path.facts + [c for k_, c in path.side]
+                ident = eqm(rho, sum((w[i] * prods[i] for i in range(k)), np.zeros(rho.shape, dtype=object)))
+                chk.add(f'rand_separable_dm({dA},{dB},k={k},pure_term={pure}): rho == sum_i w_i A_i (x) B_i with w_i = u_i / sum u (u the uniform draws, A_i, B_i the local states drawn), w_i >= 0, sum w_i == 1', base,
+                        ir.band_all(ident + [(w_ >= 0).n for w_ in w] + [H.eq_sc(_sumw(w), 1)]), key='rand_separable_dm not a mixture of product states', replay=rp)
+
+    def _sumw(ws):
+        out = SC(ir.ZERO)
+        for x in ws:
+            out = out + x
+        return out
+    separable_block(2, 2, 2, True)
+    separable_block(2, 2, 2, False)
     unitary_block(2)
     if not quick:
         unitary_block(3)
